@@ -45,6 +45,7 @@ func checkC01(c *Ctx) {
 		_, nv := sub.fmtConst("FMT-CONST", fx, "", func(g *types.Func) bool { return g.Name() == "c01text" })
 		c.Control("FMT-CONST", nv == 1, "fixture.C01FormatText uses a computed text as format string")
 	}
+	c.Floor("COMMENT-FORM", 1)
 	c.Floor("FIELDS", 6)
 	c.Floor("TABLE", 5)
 	c.Floor("ORDER", 4)
@@ -696,6 +697,7 @@ func (c *Ctx) newickOrder(wt, wn *FuncInfo) {
 			}
 		}
 	}
+	c.commentForm("COMMENT-FORM", wt, wn)
 	c.Check(strings.Join(seqT, " < ") == "subtree < ncomment < ;", "ORDER", "tree.Tree.Newick/order", wt.Decl.Pos(), "root subtree < root comments < ;", "the tree writer emits "+strings.Join(seqT, " < ")+", expected subtree < ncomment < ;").Clause = clause
 }
 
